@@ -90,6 +90,19 @@ func c03(args []string) error {
 		seeds = append(seeds, Seed{ID: id, Value: u})
 		ids = append(ids, id)
 	}
+	{
+		// a page whose answers do not depend on the random site shapes: retried and failing assets are always present
+		fp := "/fixed"
+		run.org.Route(0, fp+"/retry.png", origin.Resp{Status: 500, Body: "oops"}, okImage(1))
+		run.org.Route(0, fp+"/down.png", origin.Resp{Status: 503, Body: "down"})
+		run.org.Route(0, fp+"/busy.png", origin.Resp{Status: 429, Body: "slow down"}, okImage(2))
+		run.org.Route(0, fp+"/gone.png", origin.Resp{Status: 404, Body: "gone"})
+		run.org.Route(0, fp+"/moved.png", origin.Resp{Status: 302, Location: fp + "/target.png"})
+		run.org.Route(0, fp+"/target.png", okImage(3))
+		run.org.Route(0, fp+"/page.html", htmlPage("fixed", []string{fp + "/retry.png", fp + "/down.png", fp + "/busy.png", fp + "/gone.png", fp + "/moved.png"}, nil))
+		seeds = append([]Seed{{ID: "seed-fixed", Value: run.org.URL(0, fp+"/page.html")}}, seeds...)
+		ids = append(ids, "seed-fixed")
+	}
 	midfetch := strings.HasPrefix(moment, "midfetch")
 	if midfetch {
 		// a response the origin holds back until well after Stop was called
